@@ -98,6 +98,22 @@ def check(case):
         got = H(vec.copy())
         case.close(got, want, rtol=1e-8, what='hierarchical log-likelihood')
 
+    # The caller re-uses ONE vector and updates it in place between evaluations (samplers and optimisers do): every
+    # value must follow the array's current content, also when the previous content is evaluated again.
+    if np.isfinite(want):
+        with case.clause('inplace_buffer'):
+            buf = vec.copy()
+            for rnd in range(4):
+                got = H(buf)
+                case.close(got, float(np.real(hbuild.ref_hier(s, buf))), rtol=1e-8,
+                           what='hierarchical log-likelihood at a re-used vector after %d in-place updates' % rnd)
+                j = (rnd * 5 + 1) % len(buf)
+                if rnd < 2:
+                    buf[j] *= 1.003
+                else:
+                    buf[:] = vec           # back to the first content, still the same array object
+            case.close(H(vec.copy()), want, rtol=1e-8, what='value at a fresh copy of the first vector afterwards')
+
     with case.clause('names'):
         case.equal(H.get_parameter_names(), names_want, 'parameter names')
         case.equal(H.get_id(), ids_want, 'ids')
